@@ -3,7 +3,9 @@ real objects and report, after every operation, what every live specification an
 
 Case: {"ops": [...]}; an op that creates a specification gets the next *handle* (0, 1, ...);
 handle -1 is ``Interface``, handle -2 is ``implementedBy(object)``.
-  {"op": "iface",   "bases": [h..]}                 InterfaceClass(name, bases)
+  {"op": "iface",   "bases": [h..]}                 InterfaceClass(name, bases); a unique name, unless the
+                                                    case carries "twins": true and the op a "name"
+                                                    (finding F10: equal (name, module) twins)
   {"op": "decl",    "bases": [h..]}                 Declaration(*bases)
   {"op": "cls",     "ifaces": [h..], "bases": [h..]}  @implementer(*ifaces) class C(*classes of bases)
                                                       -> implementedBy(C)
@@ -35,8 +37,9 @@ COUNTER = [0]
 
 
 class World:
-    def __init__(self, tag):
+    def __init__(self, tag, twins=False):
         self.tag = tag
+        self.twins = twins   # the F10 stream: explicit (possibly repeated) interface names allowed
         self.nodes = {}      # id -> spec (strong)
         self.ids = {}        # id(spec) -> id
         self.kinds = {}
@@ -129,7 +132,10 @@ class World:
         kind = op["op"]
         node = None
         if kind == "iface":
-            spec = InterfaceClass(self.name("I"), tuple(self.h(b) for b in op["bases"]), {}, __module__="c02gen")
+            if "name" in op and not self.twins:
+                raise ValueError("explicit interface names are reserved for the twins stream")
+            nm = op["name"] if "name" in op else self.name("I")
+            spec = InterfaceClass(nm, tuple(self.h(b) for b in op["bases"]), {}, __module__="c02gen")
             node = self.ensure(spec)
             self.handles.append(node)
         elif kind == "decl":
@@ -205,14 +211,42 @@ class World:
                "rows": [r for r in rows if self.prev.get(r[0]) != r],
                "gone": [i for i in self.prev if i not in cur]}
         self.prev = cur
+        if self.twins:
+            out["keys"] = {str(i): ([sp.__name__, sp.__module__] if isinstance(sp, InterfaceClass) else [str(i), ""])
+                           for i, sp in self.nodes.items()}
+            out["fresh"] = self.fresh()
         return out
+
+    def fresh(self):
+        """twins stream only: build a fresh graph of the same shape (unique names) and report the
+        __sro__ every specification gets there; None when the shape cannot be rebuilt that way"""
+        clone, inv = {}, {}
+        todo = sorted(self.nodes)
+        for _ in range(len(todo) + 1):
+            for i in list(todo):
+                sp = self.nodes[i]
+                bs = [self.ids[id(b)] for b in sp.__bases__]
+                if any(b not in clone for b in bs):
+                    continue
+                if sp is Interface or not sp.__bases__ and not isinstance(sp, InterfaceClass):
+                    c = sp
+                elif isinstance(sp, InterfaceClass) and all(isinstance(clone[b], InterfaceClass) for b in bs):
+                    c = InterfaceClass(self.name("F"), tuple(clone[b] for b in bs), {}, __module__="c02gen")
+                else:
+                    return None
+                clone[i] = c
+                inv[id(c)] = i
+                todo.remove(i)
+        if todo:
+            return None
+        return {str(i): [inv[id(a)] for a in c.__sro__] for i, c in clone.items()}
 
 
 def run_case(k, case):
     steps = []
     w = None
     try:
-        w = World(k)
+        w = World(k, twins=bool(case.get("twins")))
         steps.append(w.report(None, False))
         for op in case["ops"]:
             steps.append(w.do(op))
